@@ -97,9 +97,14 @@ func Glob(pattern string) ([]string, error) {
 					} else {
 						p += name
 					}
-					if _, err := os.Lstat(p); err == nil {
-						matches = append(matches, p+sep)
+					if sep != "" {
+						if !isDir(p) {
+							continue
+						}
+					} else if _, err := os.Lstat(p); err != nil {
+						continue
 					}
+					matches = append(matches, p+sep)
 				}
 			} else {
 				// pattern
@@ -111,6 +116,9 @@ func Glob(pattern string) ([]string, error) {
 					err := glob(p, rx, func(name string) {
 						if p != "." {
 							name = p + name
+						}
+						if sep != "" && !isDir(name) {
+							return
 						}
 						matches = append(matches, name+sep)
 					})
@@ -134,6 +142,12 @@ func Glob(pattern string) ([]string, error) {
 		pattern = pattern[i+w:]
 	}
 	return paths, nil
+}
+
+// isDir reports whether path is a directory.
+func isDir(path string) bool {
+	fi, err := os.Stat(path)
+	return err == nil && fi.IsDir()
 }
 
 func glob(path string, rx *regexp.Regexp, fn func(string)) error {
